@@ -48,6 +48,7 @@ THEOREMS = [P + n for n in [
     "byte_backslash_counterexample",
     "general_extract_specialises",
     "generated_dispatch",
+    "generated_identifier_sites",
     "generated_wf_byte_raw",
     "generated_wf",
     "generated_wf_fast",
@@ -76,8 +77,17 @@ def sg():
 
 
 def dialect_names() -> list:
+    """the `Dialects` enum ∪ sqlglot.dialects.DIALECT_MODULE_NAMES (singlestore is only in the latter)"""
     *_, Dialects, _, _, _, _ = sg()
-    return [d.value for d in Dialects]
+    names = [d.value for d in Dialects]
+    try:
+        import sqlglot.dialects as dmod
+        for n in sorted(getattr(dmod, "DIALECT_MODULE_NAMES", [])):
+            if n not in names and n != "dialect":
+                names.append(n)
+    except Exception:  # noqa
+        pass
+    return names
 
 
 class Capture:
@@ -403,6 +413,30 @@ def ast_shapes(chk: Check) -> dict:
     return out
 
 
+def identifier_sites() -> list:
+    """every `Identifier(...)` constructor call in sqlglot/expressions/*.py as "file:function:call" (ast; docstrings ignored)"""
+    import glob
+
+    out = []
+    for path in sorted(glob.glob(os.path.join(REPO, "sqlglot", "expressions", "*.py"))):
+        tree = ast.parse(open(path, encoding="utf-8").read())
+
+        def walk(node, fn):
+            for chd in ast.iter_child_nodes(node):
+                f2 = fn
+                if isinstance(chd, (ast.FunctionDef, ast.AsyncFunctionDef, ast.ClassDef)):
+                    f2 = (fn + "." if fn else "") + chd.name
+                if isinstance(chd, ast.Call):
+                    f = chd.func
+                    nm = f.id if isinstance(f, ast.Name) else (f.attr if isinstance(f, ast.Attribute) else None)
+                    if nm in ("Identifier", "_Identifier"):
+                        out.append(f"{os.path.basename(path)}:{fn}:{ast.unparse(chd)}")
+                walk(chd, f2)
+
+        walk(tree, "")
+    return sorted(out)
+
+
 def translate(chk: Check) -> str:
     lines = [
         "-- GENERATED by vf/props/c04.py from the live tokenizer cores / generator objects of every dialect and the ast of",
@@ -495,7 +529,11 @@ def translate(chk: Check) -> str:
     lines.append(f"def escapeStrReplaceLast : Bool := {lean_bool(sh['escReplaceLast'])}")
     lines.append(f"def maybeCommentPlainForm : Bool := {lean_bool(sh['mcPlain'])}")
     lines.append("def maybeCommentConstants : List String := [" + ", ".join(lean_str(c) for c in sh["mcConsts"]) + "]")
+    sites = identifier_sites()
+    lines.append("-- every Identifier(...) construction in sqlglot/expressions/*.py; anything but to_identifier bypasses the automatic quoting")
+    lines.append("def identifierSites : List String := [" + ", ".join(lean_str(x) for x in sites) + "]")
     lines.append("end SqlglotModel.Generated.C04")
+    chk.cov["identifier_sites"] = sites
     chk.cov["dialects_translated"] = len(entries)
     chk.cov["distinct_cfgs"] = len(cfg_defs)
     chk.cov["ast_shapes"] = sh
@@ -1212,6 +1250,193 @@ def rand_stmt_spec(rng, alpha):
             "pretty_seq": [rng.random() < 0.5 for _ in range(n)] if mode == "reuse" else None}
 
 
+# ---- the builder API: every public entry point that turns a Python value or a name into SQL text --------------------------
+API_BASE = "p q"   # harmless but not a "safe" identifier: a name API has to quote it, a value API to put it in a literal
+_API: dict = {}
+
+
+def api_entries() -> dict:
+    """name -> (builder(v) -> Expression, "string" | "identifier").  Entry points whose str arguments are documented as SQL
+    text to be parsed (select/from_/where/join/func args, to_table, to_column, cast(to=), update keys, rename_*, with_) and
+    raw-by-design nodes (Var, Placeholder / Parameter names, function names) are not value/name entry points."""
+    if _API:
+        return _API
+    import collections
+    import datetime
+    import types as pytypes
+
+    _, exp, *_ = sg()
+    import sqlglot
+
+    NT = collections.namedtuple("NT", ["f", "g"])
+
+    class TZ(datetime.tzinfo):
+        def __init__(self, n):
+            self.n = n
+
+        def utcoffset(self, dt):
+            return datetime.timedelta(0)
+
+        def dst(self, dt):
+            return None
+
+        def tzname(self, dt):
+            return self.n
+
+        def __str__(self):
+            return self.n
+
+    sel = exp.select
+    col = exp.column
+    E = _API
+    # values
+    E["convert(str)"] = (lambda v: sel(exp.convert(v)), "string")
+    E["convert(list)"] = (lambda v: sel(exp.convert([v, "k"])), "string")
+    E["convert(tuple)"] = (lambda v: sel(exp.convert((1, v))), "string")
+    E["convert(dict key)"] = (lambda v: sel(exp.convert({v: 1})), "string")
+    E["convert(dict value)"] = (lambda v: sel(exp.convert({"k": v})), "string")
+    E["convert(namedtuple value)"] = (lambda v: sel(exp.convert(NT(f=v, g=1))), "string")
+    E["convert(object value)"] = (lambda v: sel(exp.convert(pytypes.SimpleNamespace(f=v))), "string")
+    E["convert(object attribute name)"] = (lambda v: sel(exp.convert(pytypes.SimpleNamespace(**{v: 1}))), "identifier")
+    E["convert(nested)"] = (lambda v: sel(exp.convert([{"k": (v, pytypes.SimpleNamespace(f=[v]))}])), "string")
+    E["convert(datetime tzinfo)"] = (lambda v: sel(exp.convert(datetime.datetime(2020, 1, 2, 3, 4, 5, tzinfo=TZ(v)))), "string")
+    E["Condition.eq"] = (lambda v: sel("a").from_("t").where(col("x").eq(v)), "string")
+    E["Condition.like/isin/between"] = (lambda v: sel("a").from_("t").where(col("x").like(v)).where(col("y").isin(v, "k"))
+                                        .where(col("z").between(v, v)), "string")
+    E["Condition.and_(Expression)"] = (lambda v: sel("a").from_("t").where(exp.and_(col("x").neq(v), col("y").is_(exp.convert(v)))), "string")
+    E["replace_placeholders(kwargs)"] = (lambda v: exp.replace_placeholders(sqlglot.parse_one("SELECT :x FROM t WHERE a = :x"), x=v), "string")
+    E["replace_placeholders(args)"] = (lambda v: exp.replace_placeholders(sqlglot.parse_one("SELECT ? FROM t"), v), "string")
+    E["update(properties values)"] = (lambda v: exp.update("t", {"c": v, "d": [v]}), "string")
+    E["values(rows)"] = (lambda v: sel("*").from_(exp.values([(v, 1)], alias="t", columns=["a", "b"])), "string")
+    E["insert(values)"] = (lambda v: exp.insert(exp.values([(v, 2)]), "t"), "string")
+    E["Literal.string in func"] = (lambda v: sel(exp.func("COALESCE", col("a"), exp.Literal.string(v))), "string")
+    # names
+    E["to_identifier"] = (lambda v: sel(col(exp.to_identifier(v))), "identifier")
+    E["column(name)"] = (lambda v: sel(col(v)), "identifier")
+    E["column(table/db/catalog)"] = (lambda v: sel(col("c", table=v, db=v, catalog=v)), "identifier")
+    E["table_(name)"] = (lambda v: sel("a").from_(exp.table_(v)), "identifier")
+    E["table_(db/catalog/alias)"] = (lambda v: sel("a").from_(exp.table_("t", db=v, catalog=v, alias=v)), "identifier")
+    E["alias_"] = (lambda v: sel(exp.alias_(col("a"), v)), "identifier")
+    E["alias_(table columns)"] = (lambda v: sel("*").from_(exp.alias_(exp.table_("t"), "x", table=[v])), "identifier")
+    E["Expression.as_"] = (lambda v: sel(col("a").as_(v)), "identifier")
+    E["Select.subquery(alias)"] = (lambda v: sel("*").from_(sel("a").from_("t").subquery(v)), "identifier")
+    E["subquery(alias)"] = (lambda v: exp.subquery("SELECT a FROM t", v), "identifier")
+    E["values(alias)"] = (lambda v: sel("*").from_(exp.values([(1,)], alias=v)), "identifier")
+    E["values(columns)"] = (lambda v: sel("*").from_(exp.values([(1, 2)], alias="t", columns=[v, "b"])), "identifier")
+    E["insert(columns)"] = (lambda v: exp.insert("SELECT 1", "t", columns=[v]), "identifier")
+    E["Table(to_identifier)"] = (lambda v: sel("a").from_(exp.Table(this=exp.to_identifier(v), db=exp.to_identifier(v))), "identifier")
+    E["Dot/struct field"] = (lambda v: sel(exp.Dot.build([col("s"), exp.to_identifier(v)])), "identifier")
+    return _API
+
+
+API_ENTRIES = None  # filled lazily (needs sqlglot importable)
+
+
+def safe_name(v: str) -> bool:
+    import re
+    return bool(re.match(r"^[_a-zA-Z]\w*$", v))
+
+
+def oracle_api(d, name: str, v: str, opts: dict | None = None):
+    """the adversarial text must come back as exactly ONE string / identifier token carrying exactly v — or the API must
+    refuse it.  None if that holds, else (verdict, description)."""
+    fn, kind = api_entries()[name]
+    d = d or None
+    opts = opts or {}
+    if kind == "identifier" and v == "":
+        return None  # an empty name means "no name" to the builders
+    types = ("STRING", "NATIONAL_STRING", "IDENTIFIER")  # some dialects write struct field names as string keys
+    try:
+        e0 = fn(API_BASE)
+    except Exception as ex:  # noqa
+        return None  # the entry point does not exist in this shape on this tree
+    try:
+        e1 = fn(v)
+    except Exception:  # noqa
+        return None  # refused: fine
+    try:
+        base = e0.sql(dialect=d, **opts)
+        want = toks_of(d, base)
+    except Exception as ex:  # noqa
+        return "error", f"{name}: the statement for the harmless value {API_BASE!r} does not generate/lex: {type(ex).__name__}"
+    pos = [i for i, (ty, tx) in enumerate(want) if tx == API_BASE and ty in types]
+    if not pos:
+        words = API_BASE.split(" ")
+        texts = [tx for _, tx in want]
+        if any(texts[i:i + len(words)] == words for i in range(len(texts))):
+            try:
+                shown = e1.sql(dialect=d, **opts)
+            except Exception:  # noqa
+                shown = "?"
+            return "raw", f"{name}: names are written outside any quoting: {API_BASE!r} -> {base!r}, {v!r} -> {shown!r}"
+        # the dialect drops this part of the expression altogether: then nothing of v may show up either
+    try:
+        sql = e1.sql(dialect=d, **opts)
+    except Exception as ex:  # noqa
+        return "error", f"{name}: generation raised {type(ex).__name__}: {str(ex)[:80]}"
+    try:
+        got = toks_of(d, sql)
+    except Exception as ex:  # noqa
+        return "error", f"{name}: {sql!r} does not lex: {type(ex).__name__}"
+    if len(got) != len(want):
+        return "extra-tokens", f"{name}: {sql!r} lexes to {len(got)} tokens, the same call with {API_BASE!r} to {len(want)}"
+    relaxed = kind == "identifier" and safe_name(v)   # a safe name may be left unquoted (and may then be a keyword token)
+    for i, ((ty0, tx0), (ty1, tx1)) in enumerate(zip(want, got)):
+        if i in pos:
+            if relaxed:
+                if tx1.lower() != v.lower():
+                    return "wrong-text", f"{name}: {sql!r}: the name {v!r} lexes back as {tx1!r}"
+            elif ty1 != ty0:
+                return "extra-tokens", f"{name}: {sql!r}: token {ty1} {tx1!r} where the {ty0} for {v!r} was expected"
+            elif tx1 != v:
+                return "wrong-text", f"{name}: {sql!r}: {v!r} lexes back as {tx1!r}"
+        elif (ty0, tx0) != (ty1, tx1):
+            return "extra-tokens", f"{name}: {sql!r}: token {(ty1, tx1)} where {(ty0, tx0)} was expected"
+    return None
+
+
+def consider_api(chk: Check, d, name: str, v: str, opts: dict | None = None) -> bool:
+    kind = api_entries()[name][1]
+    opts = opts or {}
+    if opts.get("pretty") and SENTINEL in v:
+        return False
+    if not single_ok(d, "string" if kind == "string" else "identifier", v):
+        return False  # the per-literal defect is reported by the per-literal oracle
+    chk.count("search:api")
+    res0 = oracle_api(d, name, v, opts)
+    if res0 is None:
+        return False
+    if res0[0] == "raw":  # independent of v: nothing to minimise
+        chk.report_violation(f"api:{name}:raw", f"[{d or 'base'}] builder API {res0[1]}",
+                             {"dialect": d, "kind": "api", "entry": name, "value": v, "opts": opts}, {"dialect": d or "base"})
+        return True
+
+    def fails(val, o=opts):
+        return single_ok(d, "string" if kind == "string" else "identifier", val) and oracle_api(d, name, val, o) is not None
+
+    changed = True
+    while changed:
+        changed = False
+        for size in range(max(1, len(v) - 1), 0, -1):
+            for i in range(0, len(v) - size + 1):
+                cand = v[:i] + v[i + size:]
+                if fails(cand):
+                    v, changed = cand, True
+                    break
+            if changed:
+                break
+    if opts and fails(v, {}):
+        opts = {}
+    verdict, what = oracle_api(d, name, v, opts)
+    chk.report_violation(f"api:{name}:{verdict}:{skeleton(v)}", f"[{d or 'base'}] builder API {what}",
+                         {"dialect": d, "kind": "api", "entry": name, "value": v, "opts": opts}, {"dialect": d or "base"})
+    return True
+
+
+API_ADV = ["first name", "a-b", "x, (SELECT secret FROM creds) AS y", 'a"b', "a'b", "a`b", "a]b", "a\\", "1x", "select", "a.b", "",
+           "a\nb", "$1", "a--b", "a/*b", "é x", "x' OR 1=1 -- ", "\\' OR 1=1 -- ", "*/ x /*", "a;b"]
+
+
 WITNESSES = [("athena", "string", "a\\"), ("athena", "string", "\\n"), ("clickhouse", "identifier", "a\\"),
              ("clickhouse", "identifier", "\\n"), ("postgres", "byte", "\\"), ("bigquery", "byte", "a\\")]
 
@@ -1270,10 +1495,25 @@ def search(chk: Check, hints: list, budget_s: float) -> None:
                 break
             tried += 1
             found += consider_stmt(chk, d, spec)
+    # the builder API: every entry point with the adversarial names/values, every dialect
+    api_names = list(api_entries())
+    for d in order:
+        for name in api_names:
+            for v in (API_ADV[:8] if chk.quick else API_ADV):
+                if len(chk.violations) >= 5:
+                    break
+                tried += 1
+                found += consider_api(chk, d, name, v)
     # random phase
     optsets = [{}, {}, {"pretty": True}, {"identify": True}, {"pretty": True, "identify": True}, {"comments": True, "pretty": True}]
     while time.time() - t0 < budget_s and len(chk.violations) < 5:
         d = rng.choice(names)
+        if rng.random() < 0.2:
+            a = per.get(d or "base", BASE_ALPHA)
+            v = rng.choice(API_ADV) if rng.random() < 0.3 else rand_text(rng, a if rng.random() < 0.5 else BASE_ALPHA, 16)
+            tried += 1
+            found += consider_api(chk, d, rng.choice(api_names), v, dict(rng.choice([{}, {}, {"pretty": True}, {"identify": True}])))
+            continue
         if rng.random() < 0.35:
             a = per.get(d or "base", BASE_ALPHA)
             spec = rand_stmt_spec(rng, a if rng.random() < 0.5 else BASE_ALPHA)
@@ -1343,7 +1583,9 @@ def replay(path: str) -> int:
     if not r:
         print(json.dumps(rec, indent=1))
         return 1
-    if r.get("kind") == "statement":
+    if r.get("kind") == "api":
+        res = oracle_api(r["dialect"], r["entry"], r["value"], r.get("opts", {}))
+    elif r.get("kind") == "statement":
         res = oracle_stmt(r["dialect"], r["spec"])
     else:
         res = oracle(r["dialect"], r["kind"], r["value"], r.get("opts", {}), r.get("variant", 0))
